@@ -349,6 +349,13 @@ class MatcherAtoms:
             return None
         # predicate calls -> inline callee body
         if isinstance(e, ast.Call) and self.depth < 6:
+            if isinstance(e.func, ast.Name) and not hasattr(e, "_pstat_callees"):
+                # a local name bound once to a bound method / function: call through it
+                d0 = single_def(self.f, e.func.id)
+                if isinstance(d0, (ast.Attribute, ast.Name)) and d0 is not e.func:
+                    e2 = ast.Call(func=d0, args=e.args, keywords=e.keywords)
+                    ast.copy_location(e2, e)
+                    return self.leaf(e2) or self.form._opaque(e)
             pre = getattr(e, "_pstat_callees", None)
             callees = pre if pre is not None else [c for c in self.prog.resolve_call(self.f, e, self.env, fanout=False) if isinstance(c, Func)]
             if len(callees) == 1:
